@@ -19,8 +19,18 @@ fn usage() -> ! {
 
 fn main() {
     let args: Vec<String> = std::env::args().collect();
-    if args.len() < 3 {
+    if args.len() < 2 || (args.len() < 3 && args[1] != "__pin-charsets") {
         usage();
+    }
+    if args[1] == "__pin-charsets" {
+        let root = std::env::var("VERIF_ROOT").map(PathBuf::from).unwrap_or_else(|_| PathBuf::from("/verif"));
+        match props::c10::pin(&root) {
+            Ok(()) => std::process::exit(0),
+            Err(e) => {
+                eprintln!("{e}");
+                std::process::exit(2)
+            }
+        }
     }
     let id = args[1].to_uppercase();
     let root = std::env::var("VERIF_ROOT")
